@@ -15,7 +15,7 @@ CLAUSES = {
             # Suspend with somebody else's wake-up time, is a wrong new state as well as a C09 violation
             "foreign_timestamp", "foreign_cancel"},
     "C08": {"value_in", "value_out", "panic_message", "return_lost", "panic_lost", "unwound", "panic", "hang", "abort",
-            "thread_not_normal"},
+            "thread_not_normal", "values_corrupted"},
     "C09": {"foreign_timestamp", "foreign_cancel", "cancel_lost"},
 }
 EXTRA = {"suspender_leak", "fault_message", "fault_not_error"}
@@ -254,11 +254,37 @@ def mc_stage(tier, cov):
     cov["states"], cov["transitions"], cov["mc_runs"] = states, trans, runs
 
 
+def typed_stage(v, wd, tier, cov):
+    """C08 with the `preemptive` feature: coroutines whose resume argument or yield value carries data compute for several
+    time slices; the preemption handler - which treats the current coroutine as one of type <(), ()> - must leave them alone,
+    so that the resumer sees exactly what the body yielded and the body exactly what was passed in (driver preempt, Trace_Monitor)."""
+    if not os.path.exists(os.path.join(HARNESS, "features_preemptive")):
+        return
+    pb = build_harness("preemptive", bins=["preempt"])
+    scs = []
+    for rep in range(3 if tier == "thorough" else 1):
+        for kind in ("yield_only", "param_only"):
+            scs.append({"typed": kind, "threads": 0, "timeout_ms": 15000, "src": "typed-coroutine-over-several-slices"})
+    for i, s in enumerate(scs):
+        s["id"] = i + 1
+    tpath = drive(pb, "preempt", scs, wd, "mreset", "mend", timeout=600, tag="_typed")
+    sanitize_ndjson(tpath, "mend")
+    info = validate_full("Trace_Monitor", tpath)
+    for x in info["viols"]:
+        if x[1] in ("values_corrupted", "abort", "hang", "panic"):
+            v.add({"clause": x[1], "scenario_id": x[2], "trace_index": x[0], "detail": x[3] if len(x) > 3 else None, "driver": "preempt",
+                   "scenario": scs[x[2] - 1] if 0 < x[2] <= len(scs) else None})
+    cov["typed_scenarios"] = len(scs)
+    cov["traces_validated_against_impl"] = cov.get("traces_validated_against_impl", 0) + len(scs)
+
+
 def run(pid, tier):
     v = Verdict(pid, tier)
     wd = workdir(pid)
     cov = {}
     bindir = build_harness()
+    if pid == "C08":
+        typed_stage(v, wd, tier, cov)
     mc_stage(tier, cov)
     scs = build_scenarios(pid, tier, cov)
     tpath = run_driver(bindir, scs, wd)
@@ -280,7 +306,7 @@ def run(pid, tier):
             v.note("clause %s (another property) in scenario %s" % (clause, scen))
     if extra:
         v.note("%d record(s) of clauses owned by other checks (suspender_leak / fault clauses: C24)" % extra)
-    cov["traces_validated_against_impl"] = len(scs)
+    cov["traces_validated_against_impl"] = cov.get("traces_validated_against_impl", 0) + len(scs)
     cov["trace_records"] = info["total"]
     srcs = {}
     for s in scs:
